@@ -453,5 +453,6 @@ def run_property(pid, tier='quick', seed=0, replay_file=None, nproc=None):
     if new_viol:
         return 1
     if replay_file:
-        print('replay: no violation reproduced')
+        print('replay: reproduced the known finding(s) listed above, no other violation' if known_hit
+              else 'replay: no violation reproduced')
     return 0
